@@ -309,6 +309,8 @@ func main() {
 					}
 					cases = append(cases, c)
 					flagged++
+				} else if c.NoPack {
+					cases = append(cases, c)
 				} else {
 					clean = append(clean, c)
 				}
